@@ -183,6 +183,15 @@ theorem first_entry_names_the_method (R : Registry) (cc code : Str) (l : List Ba
     with a method the library implements" is the same as "the id is a registered key". -/
 theorem live_method_ids_wellformed : Gen.malformedMethodIds = [] := by decide
 
+/-- Non-vacuity of `first_entry_names_the_method`: a registry with two entries of one pair naming the same
+    method satisfies its hypotheses. -/
+example :
+    let e1 : BankEntry := ⟨[68, 69], [49], some [65], false, some [48, 54], [], []⟩
+    let e2 : BankEntry := ⟨[68, 69], [49], some [66], true, some [48, 54], [], []⟩
+    Registry.byBankCode [e1, e2] [68, 69] [49] = some [e1, e2] ∧
+      (∀ x ∈ [e1, e2], ∀ y ∈ [e1, e2], x.checksumAlgo = y.checksumAlgo) := by
+  decide
+
 /-- All `checksum_algo` values listed for one bank code agree. -/
 def methodsAgree (ms : List Nat) : Bool := ms.all (fun m => some m == ms.head?)
 
